@@ -22,13 +22,13 @@ PROGRAM_SERIES_ATTRS = {"spend_data", "baseline_spend", "unit_cost", "capacity_c
 def run(ctx):
     repo = ctx.repo
     T = K.types(repo)
-    r09a(ctx, repo)
-    r09b(ctx, repo, T)
+    ctx.each(r09a, ctx, repo)
+    ctx.each(r09b, ctx, repo, T)
     ctx.rule("R09c", "ParameterScenario.get_parset: baseline pinned strictly before the first overwrite year, overwrites and function suspension from that year on, one threshold")
-    c06.scenario_partition(ctx, repo, "R09c")
-    r09d(ctx, repo, T)
+    ctx.each(c06.scenario_partition, ctx, repo, "R09c")
+    ctx.each(r09d, ctx, repo, T)
     ctx.rule("R01d", "update(ti) reads step ti-1 and writes step ti (see C01); shared here because a read at ti inside update() would let a flow act one step early")
-    c01.r01d(ctx, repo, T)
+    ctx.each(c01.r01d, ctx, repo, T)
 
 
 def _expand_flags(fi, test, depth=0):
